@@ -621,7 +621,7 @@ def make_bot(state, setting, rec):
     close = kw.pop("close", False)
     cfg = dict(kw.get("cfg") or {})
     cfg["qlog"], cfg["secrets"] = setting
-    kw["cfg"] = cfg
+    kw["cfg"] = netsim.resolve_tickets(cfg)   # (a resuming state obtains its own tickets per endpoint)
     if settle:
         def pred(w):
             return (w.ep["c"].hs_done and w.ep["s"].hs_done and w.ep["c"].op_i == len(w.ep["c"].ops)
